@@ -570,9 +570,11 @@ def oracle_C34(case, out):
         if s["kind"] != "subtrace" or s["res"][0] != "ok":
             continue
         sc, lk = s["res"][1]
-        pre = tuple(("s", x) for x in s["addr"])
+        pre = tuple(tuple(c) for c in s["addr"])
         parent = {k[len(pre):]: v for k, v in look_dict(o).items() if k[:len(pre)] == pre}
         sub = {tuple(tuple(c) for c in p): v for p, v in lk if v is not None}
+        if not parent and any(el[0] == "mask" for el in s.get("pattern", [])):
+            continue        # under a mask that is off (or an empty call): the program did not trace the address
         if sub != parent:
             bad.append(("get_subtrace: the subtrace's choices differ from the parent's submap at that address", {"addr": s["addr"], "sub": str(sub)[:200], "parent": str(parent)[:200]}))
         if r is not None:
